@@ -11,7 +11,7 @@ PROPERTY = 'C20'
 META = {
     'level': 'exploration',
     'technique': 'round-trip and differential runtime monitors: parse(dump(v)) typed equality; tnet_machine vs tnetstrings.parse under exhaustive two-way chunkings, byte-at-a-time, random k-way splits, arbitrary tails; tnet_from over a socketpair',
-    'text': 'tnet_from is additionally fed exact chunks through a replaced receive function (every two-way split, byte-wise) of streams with ignored separators and payloads containing the separator; texts include characters a lenient decoder, normaliser or stripper would alter (BOM, line/paragraph separators, combining sequences, blanks). Recursively generated values (ints of any size, floats incl. inf/-0.0/nan, booleans, null, byte strings that look like length prefixes / colons / type tags, '
+    'text': 'The exact-chunk feeder of tnet_from also times out before each chunk under timeout=0 polling (nothing-yet reports in the middle of a message, told apart from null messages by the feeder\'s own record). tnet_from is additionally fed exact chunks through a replaced receive function (every two-way split, byte-wise) of streams with ignored separators and payloads containing the separator; texts include characters a lenient decoder, normaliser or stripper would alter (BOM, line/paragraph separators, combining sequences, blanks). Recursively generated values (ints of any size, floats incl. inf/-0.0/nan, booleans, null, byte strings that look like length prefixes / colons / type tags, '
             'multi-byte text, lists and str-keyed dicts to depth 6, empty and 100 kB payloads) go through the real dump()/parse(); the result must be equal by value and '
             'type with nothing left over, also with a tail appended. For the types the streaming machine supports (bytes, text, int, null) the same bytes are fed to the real '
             'tnet_machine through a chainable source in every two-way split, byte-at-a-time and random k-way splits, followed by arbitrary data: the extracted payload must '
